@@ -82,8 +82,8 @@ func exactCap(b []byte) []byte {
 	return c
 }
 
-// showDecoded runs the real ParseTGData and renders its result (panics are part of the result).
-func showDecoded(ser []byte) (res string) {
+// showDecodedTG runs the real ParseTGData and renders its result (panics are part of the result).
+func showDecodedTG(ser []byte) (res string) {
 	defer func() {
 		if r := recover(); r != nil {
 			res = panicClass(r)
@@ -108,7 +108,7 @@ func init() {
 		id := atoi(a[0])
 		cmds := parseCmdsTok(a[1])
 		ser, _ := executor.VerifSerializeTG(id, cmds)
-		return "ser=" + hx(ser) + " dec=" + showDecoded(ser)
+		return "ser=" + hx(ser) + " dec=" + showDecodedTG(ser)
 	}
 	// tgparse <hex>
 	ops["tgparse"] = func(a []string) string {
@@ -117,7 +117,7 @@ func init() {
 		if b == nil {
 			b = []byte{}
 		}
-		return "dec=" + showDecoded(b)
+		return "dec=" + showDecodedTG(b)
 	}
 
 	gens["C28"] = genC28
